@@ -45,7 +45,7 @@ def generate(rng, tier):
         t += 0.01
     t = 1.5
     qid = 1
-    for _ in range(rng.choice([2, 4, 6, 9])):
+    for _ in range(rng.choice([2, 4, 6, 9] + ([14, 20] if tier == "thorough" else []))):
         t += rng.choice([0.0, 0.3, 1.3, 2.0, 29.0, 30.0, 31.0, 200.0, 1124.0, 1125.0, 1126.0]) * rng.choice([1, 1, rng.random()])
         peer = rng.choice(["Q1", "Q1", "Q2"] + (["Q6"] * 2 if dual else []))
         ports = {"Q1": [5353, 5353, 5354, 40001], "Q2": [5353, 6000], "Q6": [5353, 5354]}[peer]
